@@ -135,6 +135,18 @@ Theorem C20_model_is_per_name : forall q pan n steps,
 Proof. exact model_is_per_name. Qed.
 Print Assumptions C20_model_is_per_name.
 
+(** a watcher that joins late: ObjectRegistry.NewWatcher is one atomic step between two snapshots
+    (copy of the entities + registration under one lock).  Its first event is the snapshot applied
+    last before it, filtered by its categories; after any further snapshots its entities are the
+    latest snapshot, filtered: no snapshot is lost between the copy and the registration *)
+Theorem C20_late_watcher_equals_snapshot : forall pan cats pre post sc cfg n,
+  good_steps n (pre ++ post ++ [(sc, cfg)]) ->
+  option_map e_spec (join_view cats (run ideal pan (pre ++ post ++ [(sc, cfg)])) n) = filtc cats (cfg n) /\
+  option_map e_spec (late_run ideal pan cats (N.of_nat (List.length pre)) (post ++ [(sc, cfg)])
+                              (run ideal pan pre) (join_view cats (run ideal pan pre)) n) = filtc cats (cfg n).
+Proof. exact late_watcher_equals_snapshot. Qed.
+Print Assumptions C20_late_watcher_equals_snapshot.
+
 (** non-vacuity: a concrete two-name, five-snapshot run with a firing panic oracle satisfies the
     hypotheses and produces a non-trivial log *)
 Example C20_nonvacuous :
